@@ -126,6 +126,7 @@ def run(ctx):
     # ------------------------------------------------------------------ corpus (always first)
     corpus = json.load(open(os.path.join(core.VERIF, "corpus", "C10", "lines.json")))
     model = ctx.driver.ask(["a64parse " + esc(c["line"]) for c in corpus])
+    n_corpus_fail = 0
     for c, m in zip(corpus, model):
         got = impl(c["line"])
         if got != m:
@@ -133,6 +134,9 @@ def run(ctx):
             ctx.correspondence_break("corpus-line", {"line": c["line"], "impl": got, "model": m})
         if got != c["expect"]:
             n_oracle += 1
+            n_corpus_fail += 1
+            if n_corpus_fail > 2:      # leave room among the five reported replays for generated, shrunk inputs
+                continue
             ctx.violation("corpus line %r parsed as %s, expected %s" % (c["line"], got, c["expect"]),
                           {"kind": "line", "line": c["line"], "expected": c["expect"], "observed": got},
                           key="corpus:" + c["line"])
@@ -140,17 +144,26 @@ def run(ctx):
 
     # ------------------------------------------------------------------ instruction lines
     items = []
+    # first the sweep of label names that begin with a shift/extend operator word (`lsl_loop`, `ROR.tab`, `sxtw1`,
+    # `mul_vl`) directly behind every operand kind with an optional shift tail, compact and with single blanks
+    n_sweep = 0
+    for ast in a64gen.shift_name_sweep():
+        for style in (0, 1):
+            line, gaps = a64gen.render(rng, ast, style)
+            items.append((ast, line, gaps, a64gen.expect_line(ast)))
+            n_sweep += 1
     for _ in range(vol["lines"]):
         ast = a64gen.g_instr(rng)
         line, gaps = a64gen.render(rng, ast)
         items.append((ast, line, gaps, a64gen.expect_line(ast)))
         _kind_hist(ast, hist)
+    n_shift_named = sum(1 for ast, _, _, _ in items[n_sweep:] if a64gen.shift_named(ast))
     model = ctx.driver.ask(["a64parse " + esc(line) for _, line, _, _ in items])
     rendered = ctx.driver.ask(["a64render " + a64gen.ast_wire(ast, gaps) for ast, _, gaps, _ in items])
     expected = ctx.driver.ask(["a64expect " + a64gen.ast_wire(ast, gaps) for ast, _, gaps, _ in items])
     indomain = ctx.driver.ask(["a64domain " + a64gen.ast_wire(ast, gaps) for ast, _, gaps, _ in items])
     n_in = sum(1 for d in indomain if d == "1")
-    n_in_bad = 0
+    n_in_bad = n_gen_fail = 0
     distinct = set()
     for (ast, line, gaps, want), m, rd, ex, dom in zip(items, model, rendered, expected, indomain):
         if dom == "1" and m != want:
@@ -172,7 +185,8 @@ def run(ctx):
                 ctx.correspondence_break("parse_line", {"line": line, "impl": got, "model": m})
         if got != want:
             n_oracle += 1
-            if n_oracle <= 3:
+            n_gen_fail += 1
+            if n_gen_fail <= 3:      # counted apart from the corpus: a generated, shrunk input is always reported
                 sh = _shrink(parser, a64gen, a64canon, ast)
                 rep = {"kind": "line", "line": line, "expected": want, "observed": got, "ast": ast}
                 if sh is not None:
@@ -183,9 +197,11 @@ def run(ctx):
                               % (rep["line"], rep["observed"], rep["expected"]), rep)
     ctx.count("instruction_lines", len(items))
     ctx.count("lines_inside_theorem_domain", n_in)
+    ctx.count("shift_name_sweep_lines", n_sweep)
+    ctx.count("random_lines_with_shift_named_label_behind_register", n_shift_named)
     ctx.cov["theorem_domain"] = {"generated_lines": len(items), "inside_domain_of_a64_roundtrip": n_in,
                                  "outside_examples": [l for (a, l, g, w), d in zip(items, indomain) if d != "1"][:5]}
-    for ast, line, _, want in items[:3]:
+    for ast, line, _, want in items[:1] + items[n_sweep:n_sweep + 2]:
         ctx.sample({"line": line, "expected": want})
 
     # ------------------------------------------------------------------ comment / marker / label / directive lines
@@ -304,7 +320,9 @@ def run(ctx):
     ctx.cov["traces_validated_against_impl"] = len(items) + len(others) + vol["files"] + len(corpus)
     ctx.cov["distinct_nontrivial"] = len(distinct)
     ctx.cov["rule"] = ("lines rendered from random instruction ASTs (0-5 operand slots, prefetch first, memory last) with "
-                       "random blanks/tabs in every gap and optional trailing comment; non-trivial = distinct lines with "
+                       "random blanks/tabs in every gap and optional trailing comment; label names begin with a "
+                       "shift/extend operator word in 12 % of the names, and a fixed sweep puts such a name behind every "
+                       "operand kind; non-trivial = distinct lines with "
                        "at least one operand; plus comment/marker/label/directive lines and files with blank lines")
     ctx.cov["distribution"] = {"operand_kinds": hist, "line_classes": classes,
                                "malformed_informational": {"lines": total, "model_agrees": agree, "examples": disagree}}
